@@ -754,3 +754,299 @@ class Independence:
                            f'{_case_str(ctx.case)} then {_case_str(E)} then the same message object again: differs from a fresh copy '
                            f'into the re-read running order (exc {o4.exc} vs {o4f.exc})')
                     return
+
+
+# ================================================================ state monitors (C15 / C16 / C17)
+import datetime as _dt
+import io as _io
+import contextlib as _ctxlib
+
+
+class StateMonitor:
+    """Checks an invariant on every expanded state and on every state discovered by a
+    transition (so the last explored depth is covered too)."""
+    _seen = None
+
+    def check(self, ns, text, view, res):
+        return ()
+
+    def state(self, ns, h, text, view, res):
+        if self._seen is None:
+            self._seen = set()
+        self._seen.add(text)
+        yield from self.check(ns, text, view, res)
+
+    def __call__(self, ctx, res):
+        obs = ctx.obs
+        if obs.exc is not None or obs.after is None or obs.after == ctx.before:
+            return
+        if self._seen is None:
+            self._seen = set()
+        if obs.after in self._seen:
+            return
+        if len(self._seen) < 200000:
+            self._seen.add(obs.after)
+        av = ctx.after_view
+        if av is None or av.base is None:
+            return
+        # preconditions of the accessor properties: stories have a storyID, items an itemID
+        res.extra['states_checked_after_transition'] += 1
+        for sig, detail in self.check(ctx.ns, obs.after, av, res):
+            yield (f'{ctx.case["kind"]}>' + sig, f'after {_case_str(ctx.case)} on {_fmt(ctx.view.story_ids)}: ' + detail)
+
+
+def _blank_none(t):
+    return None if t == '' else t
+
+
+def _iso(t):
+    return _dt.datetime.fromisoformat(t) if t else None
+
+
+def _story_timing(se):
+    """Independent reading of a <story>: (duration, explicit start, explicit end)."""
+    mem = se.find('mosExternalMetadata')
+    pl = mem.find('mosPayload') if mem is not None else None
+    if pl is None:
+        return None, None, None
+
+    def num(tag):
+        c = pl.find(tag)
+        return float(c.text) if c is not None and c.text else None
+    sd, tt, mt = num('StoryDuration'), num('TextTime'), num('MediaTime')
+    if sd is not None:
+        d = sd
+    elif tt is not None or mt is not None:
+        d = (tt or 0.0) + (mt or 0.0)
+    else:
+        d = None
+    st = pl.find('StoryStarted')
+    en = pl.find('StoryEnded')
+    return d, _iso(st.text) if st is not None else None, _iso(en.text) if en is not None else None
+
+
+def _call(fn):
+    try:
+        return fn(), None
+    except Exception as e:  # noqa
+        return None, e
+
+
+class Accessors(StateMonitor):
+    """C15: read accessors never raise and agree with the XML."""
+
+    def check(self, ns, text, view, res):
+        from . import target
+        res.extra['states_checked'] += 1
+        ro, e = target.parse(ns, text)
+        if ro is None:
+            yield ('STATE:unreadable', f'state does not parse: {e}')
+            return
+        ncalls = 0
+        for name in ('ro_slug', 'start_time', 'end_time', 'duration', 'completed', 'script', 'body', 'message_id',
+                     'ro_id', 'base_tag', 'xml', 'dict', 'stories'):
+            v, e = _call(lambda: getattr(ro, name))
+            ncalls += 1
+            if e is not None:
+                yield (f'RunningOrder.{name}:raised:{type(e).__name__}',
+                       f'ro.{name} raised {type(e).__name__}: {e} (stories {_fmt(view.story_ids)})')
+                if name == 'stories':
+                    return
+        for fn_name in ('__repr__', '__str__'):
+            v, e = _call(lambda: getattr(ro, fn_name)())
+            if e is not None:
+                yield (f'RunningOrder.{fn_name}:raised:{type(e).__name__}', f'{fn_name} raised {e}')
+        with _ctxlib.redirect_stdout(_io.StringIO()):
+            v, e = _call(ro.inspect)
+        if e is not None:
+            yield (f'RunningOrder.inspect:raised:{type(e).__name__}', f'ro.inspect() raised {type(e).__name__}: {e}')
+        stories = ro.stories
+        if [s.id for s in stories] != view.story_ids:
+            yield ('RunningOrder.stories:ids-differ', f'ro.stories ids {[s.id for s in stories]} vs document {view.story_ids}')
+            return
+        ed = view.base.find('roEdStart')
+        exp_start = _iso(ed.text) if ed is not None and ed.text else None
+        if ro.start_time != exp_start:
+            yield ('RunningOrder.start_time:value', f'ro.start_time {ro.start_time!r} vs roEdStart {exp_start!r}')
+        if tree.child_text(view.base, 'roSlug') is not None and ro.ro_slug != _blank_none(tree.child_text(view.base, 'roSlug')):
+            yield ('RunningOrder.ro_slug:value', f'ro.ro_slug {ro.ro_slug!r}')
+        for s, sv in zip(stories, view.stories):
+            for name in ('id', 'slug', 'items', 'duration', 'offset', 'start_time', 'end_time', 'script', 'body', 'xml'):
+                v, e = _call(lambda: getattr(s, name))
+                ncalls += 1
+                if e is not None:
+                    yield (f'Story.{name}:raised:{type(e).__name__}', f'story {sv.id}: .{name} raised {type(e).__name__}: {e}')
+            v, e = _call(lambda: (repr(s), str(s)))
+            if e is not None:
+                yield (f'Story.repr:raised:{type(e).__name__}', f'story {sv.id}: repr/str raised {e}')
+            exp_slug = _blank_none(tree.child_text(sv.elem, 'storySlug'))
+            v, e = _call(lambda: s.slug)
+            if e is None and v != exp_slug:
+                yield ('Story.slug:value', f'story {sv.id}: slug {v!r} vs document {exp_slug!r}')
+            d, st, en = _story_timing(sv.elem)
+            v, e = _call(lambda: s.duration)
+            if e is None and d is None and v is not None:
+                yield ('Story.duration:not-none', f'story {sv.id}: no timing data but duration={v!r}')
+            items, e = _call(lambda: s.items)
+            if e is not None or items is None:
+                if e is None:
+                    yield ('Story.items:none', f'story {sv.id}: items is None')
+                continue
+            if [i.id for i in items] != sv.item_ids:
+                yield ('Story.items:ids-differ', f'story {sv.id}: items {[i.id for i in items]} vs document {sv.item_ids}')
+                continue
+            for it, ie in zip(items, sv.items()):
+                for name, tag in (('id', 'itemID'), ('slug', 'itemSlug'), ('type', 'objType'), ('object_id', 'objID'), ('mos_id', 'mosID')):
+                    v, e = _call(lambda: getattr(it, name))
+                    ncalls += 1
+                    exp = _blank_none(tree.child_text(ie, tag))
+                    if e is not None:
+                        yield (f'Item.{name}:raised:{type(e).__name__}', f'item {it.id} of {sv.id}: .{name} raised {type(e).__name__}: {e}')
+                    elif v != exp:
+                        yield (f'Item.{name}:value', f'item {tree.child_text(ie, "itemID")} of {sv.id}: .{name}={v!r} vs document {exp!r}')
+                v, e = _call(lambda: it.note)
+                ncalls += 1
+                exp = None
+                n = ie.find("mosExternalMetadata/mosPayload//studioCommand[@type='note']/text")
+                if n is not None:
+                    exp = n.text
+                if e is not None:
+                    yield (f'Item.note:raised:{type(e).__name__}', f'item of {sv.id}: .note raised {type(e).__name__}: {e}')
+                elif v != exp:
+                    yield ('Item.note:value', f'item {tree.child_text(ie, "itemID")} of {sv.id}: note {v!r} vs document {exp!r}')
+        res.extra['accessor_calls'] += ncalls
+
+
+class Timing(StateMonitor):
+    """C16: durations, offsets, start and end times."""
+
+    def check(self, ns, text, view, res):
+        from . import target
+        res.extra['states_checked'] += 1
+        ro, e = target.parse(ns, text)
+        if ro is None:
+            yield ('STATE:unreadable', f'state does not parse: {e}')
+            return
+        stories, e = _call(lambda: ro.stories)
+        if e is not None:
+            return      # C15's business
+        if [s.id for s in stories] != view.story_ids:
+            return
+        data = [_story_timing(sv.elem) for sv in view.stories]
+        durs = [d for d, _, _ in data]
+        # per-story duration: StoryDuration, else TextTime + MediaTime (missing one = 0)
+        for s, sv, d in zip(stories, view.stories, durs):
+            v, e = _call(lambda: s.duration)
+            if e is not None:
+                continue
+            if v != d:
+                yield ('Story.duration:value', f'story {sv.id}: duration {v!r}, recomputed {d!r}')
+        if any(d is None for d in durs):
+            res.extra['states_with_a_story_without_duration'] += 1
+            return
+        res.extra['states_with_all_durations'] += 1
+        ed = view.base.find('roEdStart')
+        ro_start = _iso(ed.text) if ed is not None and ed.text else None
+        v, e = _call(lambda: ro.duration)
+        exp = sum(durs) if durs else 0
+        if e is None and v != exp:
+            yield ('RunningOrder.duration:value', f'ro.duration {v!r}, sum of story durations {exp!r} ({durs})')
+        v, e = _call(lambda: ro.start_time)
+        if e is None and v != ro_start:
+            yield ('RunningOrder.start_time:value', f'ro.start_time {v!r} vs roEdStart {ro_start!r}')
+        off = 0.0
+        last_end = None
+        for k, (s, sv, (d, st, en)) in enumerate(zip(stories, view.stories, data)):
+            v, e = _call(lambda: s.offset)
+            if e is None and v != off:
+                yield ('Story.offset:value', f'story #{k} {sv.id}: offset {v!r}, sum of earlier durations {off!r} ({durs})')
+            exp_start = st if st is not None else (ro_start + _dt.timedelta(seconds=off) if ro_start is not None else None)
+            v, e = _call(lambda: s.start_time)
+            if e is None and v != exp_start:
+                yield ('Story.start_time:value' + (':explicit' if st else ':derived'),
+                       f'story #{k} {sv.id}: start_time {v!r}, expected {exp_start!r}')
+            exp_end = en if en is not None else (exp_start + _dt.timedelta(seconds=d) if exp_start is not None else None)
+            v, e = _call(lambda: s.end_time)
+            if e is None and v != exp_end:
+                yield ('Story.end_time:value' + (':explicit' if en else ':derived'),
+                       f'story #{k} {sv.id}: end_time {v!r}, expected {exp_end!r}')
+            last_end = exp_end
+            off += d
+        v, e = _call(lambda: ro.end_time)
+        if e is None and v != last_end:
+            yield ('RunningOrder.end_time:value', f'ro.end_time {v!r}, last story ends {last_end!r}')
+
+
+def _script_of(se):
+    out = []
+    for c in se:
+        if c.tag != 'p':
+            continue
+        t = c.text
+        if t is None or t.strip() == '':
+            continue
+        st = t.strip()
+        if (st[0] == '(' and st[-1] == ')') or (st[0] == '<' and st[-1] == '>'):
+            continue
+        out.append(st)
+    return out
+
+
+def _body_of(se):
+    out = []
+    for c in se:
+        if c.tag == 'p':
+            out.append(('p', c.text if c.text is not None else ''))
+        elif c.tag == 'item':
+            out.append(('item', tree.child_text(c, 'itemID')))
+    return out
+
+
+class ScriptBody(StateMonitor):
+    """C17: script and body."""
+
+    def check(self, ns, text, view, res):
+        from . import target
+        res.extra['states_checked'] += 1
+        ro, e = target.parse(ns, text)
+        if ro is None:
+            yield ('STATE:unreadable', f'state does not parse: {e}')
+            return
+        stories, e = _call(lambda: ro.stories)
+        if e is not None or [s.id for s in stories] != view.story_ids:
+            return      # C15's business
+        # paragraphs with inline child elements are outside the claim
+        if any(len(k[2]) for sv in view.stories for k in sv.kids if k[0] == 'p'):
+            res.extra['states_skipped_inline_markup'] += 1
+            return
+        all_script, all_body = [], []
+        for s, sv in zip(stories, view.stories):
+            es, eb = _script_of(sv.elem), _body_of(sv.elem)
+            all_script += es
+            all_body += eb
+            v, e = _call(lambda: s.script)
+            if e is not None:
+                yield (f'Story.script:raised:{type(e).__name__}', f'story {sv.id}: script raised {type(e).__name__}: {e}')
+            elif list(v) != es:
+                yield ('Story.script:value', f'story {sv.id}: script {v!r}, derived from the document {es!r}')
+            v, e = _call(lambda: s.body)
+            if e is not None:
+                yield (f'Story.body:raised:{type(e).__name__}', f'story {sv.id}: body raised {type(e).__name__}: {e}')
+            else:
+                got = [('p', x) if isinstance(x, str) else ('item', getattr(x, 'id', None)) for x in v]
+                if got != eb:
+                    yield ('Story.body:value', f'story {sv.id}: body {got!r}, derived from the document {eb!r}')
+        v, e = _call(lambda: ro.script)
+        if e is not None:
+            yield (f'RunningOrder.script:raised:{type(e).__name__}', f'ro.script raised {type(e).__name__}: {e}')
+        elif list(v) != all_script:
+            yield ('RunningOrder.script:value', f'ro.script {v!r}, concatenation of the stories {all_script!r}')
+        v, e = _call(lambda: ro.body)
+        if e is not None:
+            yield (f'RunningOrder.body:raised:{type(e).__name__}', f'ro.body raised {type(e).__name__}: {e}')
+        else:
+            got = [('p', x) if isinstance(x, str) else ('item', getattr(x, 'id', None)) for x in v]
+            if got != all_body:
+                yield ('RunningOrder.body:value', f'ro.body {got!r}, concatenation of the stories {all_body!r}')
+        if all_script:
+            res.extra['states_with_script'] += 1
